@@ -110,7 +110,10 @@ func (PoolsNeverLose) Check(t *explore.Transition) ([]V, bool) {
 		case 1: // liquidity added: minted share not larger than the deposited share of either coin
 			minted := new(big.Int).Sub(sb, sa)
 			a0, a1 := new(big.Int).Sub(r0b, r0a), new(big.Int).Sub(r1b, r1a)
-			if new(big.Int).Mul(minted, r0a).Cmp(new(big.Int).Mul(a0, sa)) > 0 || new(big.Int).Mul(minted, r1a).Cmp(new(big.Int).Mul(a1, sa)) > 0 {
+			// removing the minted tokens right away returns floor(minted·reserve'/supply') of each coin
+			back0 := new(big.Int).Div(new(big.Int).Mul(minted, r0b), sb)
+			back1 := new(big.Int).Div(new(big.Int).Mul(minted, r1b), sb)
+			if back0.Cmp(a0) > 0 || back1.Cmp(a1) > 0 {
 				out = append(out, V{Signature: "add-then-remove-gains|" + ty, Detail: fmt.Sprintf("tx %q: minted %s pool tokens (supply %s) for deposits %s/%s into reserves %s/%s", r.T.Name, minted, sa, a0, a1, r0a, r1a)})
 			}
 		}
